@@ -316,3 +316,117 @@ Section Roundtrip.
     - apply rt_struct. assumption.
   Qed.
 End Roundtrip.
+
+(* ---- the normal form is equivalent to the value: absent = empty list ---- *)
+Lemma value_eqb_refl v : value_eqb v v = true.
+Proof.
+  induction v using value_ind'; cbn [value_eqb];
+    try reflexivity; try apply Bool.eqb_reflx; try apply Z.eqb_refl; try apply String.eqb_refl.
+  - induction l as [|x l IHl]; [reflexivity|].
+    inversion H as [|? ? Hx Hl]; subst. rewrite Hx. cbn [andb]. apply IHl. exact Hl.
+  - induction l as [|x l IHl]; [reflexivity|].
+    inversion H as [|? ? Hx Hl]; subst. rewrite Hx. cbn [andb]. apply IHl. exact Hl.
+Qed.
+
+Section NormEquiv.
+  Variable tbl : list sdesc.
+  Notation fields_of := (fields_of tbl).
+  Notation normt := (normt tbl).
+  Notation has_type := (has_type tbl).
+  Notation zero := (zero tbl).
+
+  Definition NE (v : value) : Prop := forall t, has_type t v = true -> norm (normt t v) = norm v.
+
+  Lemma norm_list l : norm (VList l) = match l with [] => VNil | _ => VList (map norm l) end.
+  Proof. destruct l; reflexivity. Qed.
+
+  Lemma empty_zero t v : has_type t v = true -> is_empty t v = true -> norm (zero t) = norm v.
+  Proof.
+    destruct t as [k|k|k]; destruct v as [| b | z | s | l | l]; cbn [is_empty]; intros Ht He; try discriminate;
+      try reflexivity.
+    - destruct b; [discriminate|]. cbn in Ht. destruct k; try discriminate. reflexivity.
+    - destruct z; try discriminate. cbn in Ht. destruct k; try discriminate. reflexivity.
+    - destruct s; try discriminate. cbn in Ht. destruct k; try discriminate. reflexivity.
+    - destruct l; [reflexivity | discriminate].
+  Qed.
+
+  Lemma ne_fields fs vs :
+    Forall NE vs -> typed_fields tbl fs vs = true ->
+    map norm (norm_fields tbl fs vs) = map norm vs.
+  Proof.
+    revert fs. induction vs as [|v vs IH]; intros fs Hne Hty; [reflexivity|].
+    destruct fs as [|f fs]; [discriminate|].
+    cbn [typed_fields] in Hty. apply andb_true_iff in Hty. destruct Hty as [Hv Hty].
+    inversion Hne as [|? ? Hnv Hne']; subst.
+    cbn [norm_fields map]. f_equal; [|apply IH; assumption].
+    destruct (f_omit f && is_empty (f_ty f) v)%bool eqn:E.
+    - apply andb_true_iff in E. destruct E as [_ E]. apply empty_zero; assumption.
+    - apply Hnv. exact Hv.
+  Qed.
+
+  Theorem norm_normt : forall v t, has_type t v = true -> norm (normt t v) = norm v.
+  Proof.
+    intros v. change (NE v). induction v using value_ind'; try (intros t Ht; reflexivity).
+    - (* list *)
+      intros t Ht.
+      destruct t as [k|k|k]; cbn [JsonCodec.has_type JsonCodec.has_kind is_nil orb] in Ht; try discriminate.
+      cbn [JsonCodec.normt kind_of]. rewrite !norm_list.
+      destruct l as [|x l]; [reflexivity|]. cbn [map]. f_equal.
+      rewrite forallb_forall in Ht. rewrite Forall_forall in H.
+      f_equal.
+      + apply (H x (or_introl eq_refl)). cbn [JsonCodec.has_type]. apply Ht. left. reflexivity.
+      + rewrite map_map. apply map_ext_in. intros y Hy.
+        apply (H y (or_intror Hy)). cbn [JsonCodec.has_type]. apply Ht. right. exact Hy.
+    - (* struct *)
+      intros t Ht.
+      assert (Hk : exists id, kind_of t = KStruct id /\ typed_fields tbl (fields_of id) l = true).
+      { destruct t as [k|k|k]; cbn [JsonCodec.has_type is_nil orb] in Ht; try discriminate;
+          (destruct k as [| | |id|]; try discriminate);
+          exists id; rewrite has_kind_struct in Ht; (split; [reflexivity | exact Ht]). }
+      destruct Hk as [id [Hkind Hty]].
+      rewrite (normt_struct tbl t id l Hkind). cbn [norm]. f_equal.
+      apply ne_fields; assumption.
+  Qed.
+End NormEquiv.
+
+(* ---- the TimePeriodType clause over an abstract clock ---- *)
+Local Open Scope Z_scope.
+
+Lemma round_time_near x : Z.abs (round_time x - x) <= second / 2.
+Proof.
+  unfold round_time, second.
+  pose proof (Z.div_mod (x + 1000000000 / 2) 1000000000 ltac:(lia)) as Hd.
+  pose proof (Z.mod_pos_bound (x + 1000000000 / 2) 1000000000 ltac:(lia)) as Hb.
+  change (1000000000 / 2) with 500000000 in *. lia.
+Qed.
+
+Lemma round_dur_near d : Z.abs (round_dur d - d) <= second / 2.
+Proof.
+  unfold round_dur, second. change (1000000000 / 2) with 500000000.
+  destruct (Z.leb 0 d).
+  - pose proof (Z.div_mod (d + 500000000) 1000000000 ltac:(lia)) as Hd.
+    pose proof (Z.mod_pos_bound (d + 500000000) 1000000000 ltac:(lia)) as Hb. lia.
+  - pose proof (Z.div_mod (- d + 500000000) 1000000000 ltac:(lia)) as Hd.
+    pose proof (Z.mod_pos_bound (- d + 500000000) 1000000000 ltac:(lia)) as Hb. lia.
+Qed.
+
+(* Marshal then Unmarshal at clock reading [now]: a period with a start time, without
+   an end, or with an end that is neither a time nor a duration is unchanged; an
+   absolute end comes back as an absolute end at most one second away; a relative end
+   is re-expressed as the absolute time now + duration (to the second). *)
+Theorem timeperiod_roundtrip now p :
+  let q := tp_unmarshal now (tp_marshal now p) in
+  p_start q = p_start p /\
+  match p_start p, p_end p with
+  | None, Some (EAbs t) => exists t', p_end q = Some (EAbs t') /\ Z.abs (t' - t) <= second
+  | None, Some (ERel d) => exists t', p_end q = Some (EAbs t') /\ Z.abs (t' - (now + d)) <= second / 2
+  | _, _ => q = p
+  end.
+Proof.
+  destruct p as [[s|] [[t|d|r]|]]; cbn; try (split; reflexivity).
+  - split; [reflexivity|]. eexists. split; [reflexivity|].
+    pose proof (round_time_near (now + round_dur (t - now))) as H1.
+    pose proof (round_dur_near (t - now)) as H2.
+    change (second / 2) with 500000000 in *. unfold second. lia.
+  - split; [reflexivity|]. eexists. split; [reflexivity|]. apply round_time_near.
+Qed.
